@@ -141,6 +141,60 @@ theorem deframe_any_segmentation (ps : List Bytes) (cs : List Bytes)
     simp only [List.length_cons, frames]
     rw [readMsgsFlat_frame _ p (frames ps) hp, ih']
 
+/-- **frames_injective**: the framing is uniquely decodable — two lists of messages (each within the limit) with
+    the same octets on the stream are the same list -/
+theorem frames_injective (ps qs : List Bytes) (hp : ∀ p ∈ ps, p.length ≤ 65535) (hq : ∀ q ∈ qs, q.length ≤ 65535)
+    (h : frames ps = frames qs) : ps = qs := by
+  induction ps generalizing qs with
+  | nil =>
+    cases qs with
+    | nil => rfl
+    | cons q qs => exfalso; have := congrArg List.length h; simp [frames, beBytes2_length] at this; omega
+  | cons p ps ih =>
+    cases qs with
+    | nil => exfalso; have := congrArg List.length h; simp [frames, beBytes2_length] at this
+    | cons q qs =>
+      simp only [frames, List.append_assoc] at h
+      have h2 := List.append_inj h (by simp [beBytes2_length])
+      have hl : p.length = q.length := by
+        have := congrArg beVal h2.1
+        rw [beVal_beBytes2 _ (by have := hp p (by simp); omega),
+            beVal_beBytes2 _ (by have := hq q (by simp); omega)] at this
+        exact this
+      have h3 := List.append_inj h2.2 hl
+      rw [h3.1, ih qs (fun x hx => hp x (by simp [hx])) (fun x hx => hq x (by simp [hx])) h3.2]
+
+/-- **partial_frame_not_delivered**: a stream that ends inside a frame — after any proper prefix of it — delivers
+    exactly the messages in front and nothing of the cut one -/
+theorem partial_frame_not_delivered (ps : List Bytes) (p : Bytes) (k : Nat)
+    (hlen : ∀ q ∈ ps, q.length ≤ 65535) (hp : p.length ≤ 65535) (hk : k < 2 + p.length) :
+    (readMsgsFlat (ps.length + 1) (frames ps ++ (beBytes 2 p.length ++ p).take k)).1 = ps := by
+  induction ps with
+  | nil =>
+    simp only [frames, List.nil_append, List.length_nil, Nat.zero_add]
+    rw [readMsgsFlat]
+    by_cases h0 : ((beBytes 2 p.length ++ p).take k).isEmpty = true
+    · simp [h0]
+    · simp only [h0, Bool.false_eq_true, ↓reduceIte]
+      by_cases h1 : ((beBytes 2 p.length ++ p).take k).length < 2
+      · rw [if_pos h1]
+      · rw [if_neg h1]
+        have hk2 : 2 ≤ k := by
+          simp only [List.length_take, List.length_append, beBytes2_length] at h1; omega
+        have ht : ((beBytes 2 p.length ++ p).take k).take 2 = beBytes 2 p.length := by
+          rw [List.take_take, Nat.min_eq_left hk2, List.take_append_of_le_length (by simp [beBytes2_length])]
+          simp [List.take_of_length_le, beBytes2_length]
+        have hd : (((beBytes 2 p.length ++ p).take k).drop 2).length < p.length := by
+          simp only [List.length_drop, List.length_take, List.length_append, beBytes2_length]; omega
+        simp only [ht, beVal_beBytes2 p.length (by omega : p.length < 65536)]
+        rw [if_pos hd]
+  | cons q qs ih =>
+    have hq := hlen q (by simp)
+    simp only [List.length_cons, frames]
+    rw [List.append_assoc (beBytes 2 q.length ++ q), readMsgsFlat_frame _ q _ hq]
+    simp only
+    rw [ih (fun x hx => hlen x (by simp [hx]))]
+
 /-- an over-long message is refused, never framed with a wrapped length -/
 theorem oversize_refused (p : Bytes) (h : p.length > 65535) : frame p = none := by simp [frame, h]
 
